@@ -125,15 +125,22 @@ func (f *Frame) applyCall(v ssa.Value, c *ssa.CallCommon, callee *ssa.Function, 
 			return
 		}
 		if callee != nil {
-			u.trusted["external "+what+": assumed not to panic and not to modify modelled memory; result unconstrained"] = true
+			u.trusted["external "+what+": assumed not to panic and not to modify modelled memory other than local variables whose address it is given; result unconstrained"] = true
+			// an external that is handed the address of a local variable (asn1.Unmarshal(b, &v),
+			// s.ReadASN1(&out, tag), a pointer-receiver method on a local) may write it: the
+			// variable's contents are unknown afterwards (the sweeps' abstraction below makes them a
+			// deterministic function of the other arguments instead)
 			if pp := externPanicPre(callee, args, u); pp != "" {
 				f.check(st, "extpanic", pp, in, "precondition of "+what)
 			}
 			if u.sweep && tr == nil {
 				// schematic mode: externals are deterministic functions of their arguments
+				f.pendingCall = c
 				f.abstractCall(v, callee, sig, st, args)
+				f.pendingCall = nil
 				return
 			}
+			f.havocLocalPointees(c, st)
 			f.havocCall(v, sig, st, false, tr, args)
 		} else {
 			u.inexact = true
@@ -145,6 +152,58 @@ func (f *Frame) applyCall(v ssa.Value, c *ssa.CallCommon, callee *ssa.Function, 
 		return
 	}
 	f.havocCall(v, sig, st, true, tr, args)
+}
+
+// havocLocalPointees: every operand of the call that is the address of a local variable of this
+// function (directly, converted, or boxed in an interface) gets unknown contents.
+func (f *Frame) havocLocalPointees(c *ssa.CallCommon, st *state) {
+	u := f.u
+	ops := append([]ssa.Value{}, c.Args...)
+	if c.IsInvoke() {
+		ops = append(ops, c.Value)
+	}
+	seen := map[*ssa.Alloc]bool{}
+	for _, a := range ops {
+	unwrap:
+		for i := 0; i < 4; i++ {
+			switch x := a.(type) {
+			case *ssa.MakeInterface:
+				a = x.X
+			case *ssa.ChangeType:
+				a = x.X
+			case *ssa.Convert:
+				a = x.X
+			default:
+				break unwrap
+			}
+		}
+		al, ok := a.(*ssa.Alloc)
+		if !ok || seen[al] {
+			continue
+		}
+		r, mine := f.allocRefs[al]
+		if !mine {
+			continue
+		}
+		seen[al] = true
+		el := al.Type().Underlying().(*types.Pointer).Elem()
+		if s, ok := el.Underlying().(*types.Struct); ok {
+			for i := 0; i < s.NumFields(); i++ {
+				arr, _ := u.fieldArr(el, i)
+				fv := u.fresh("extw."+al.Name(), u.D.SortOf(s.Field(i).Type()))
+				u.assumeRange(fv, s.Field(i).Type())
+				u.hset(st.heap, arr, sto(u.hget(st.heap, arr), r, fv))
+				u.wellFormedLoaded(st.heap, fv, s.Field(i).Type())
+			}
+		} else {
+			arr, _ := u.cellArr(el)
+			fv := u.fresh("extw."+al.Name(), u.D.SortOf(el))
+			u.assumeRange(fv, el)
+			u.hset(st.heap, arr, sto(u.hget(st.heap, arr), r, fv))
+			u.wellFormedLoaded(st.heap, fv, el)
+		}
+		u.bumpHV(st.heap, false)
+	}
 }
 
 func inlinable(fn *ssa.Function) bool {
@@ -698,6 +757,12 @@ func (f *Frame) finishInline(v ssa.Value, g *Frame, st *state) {
 	n := len(g.retVals[0])
 	var rs []Val
 	for j := 0; j < n; j++ {
+		// an address (of a package-level variable, a field, an element) returned on the only return
+		// path keeps its location: `return &pkg.Var` followed by `*f()` in the caller
+		if len(g.retVals) == 1 && g.retVals[0][j].Loc != nil && g.retVals[0][j].Addr {
+			rs = append(rs, g.retVals[0][j])
+			continue
+		}
 		term := g.retVals[len(g.retVals)-1][j].T
 		typ := g.retVals[0][j].Typ
 		for i := len(g.retVals) - 2; i >= 0; i-- {
@@ -1847,6 +1912,9 @@ func (f *Frame) abstractCall(v ssa.Value, callee *ssa.Function, sig *types.Signa
 		ts = append(ts, a.T)
 	}
 	if !ok {
+		if f.pendingCall != nil {
+			f.havocLocalPointees(f.pendingCall, st)
+		}
 		f.havocCall(v, sig, st, false, nil, args)
 		return
 	}
